@@ -14,6 +14,14 @@ MUTATORS = {
     "sort", "reverse", "difference_update", "intersection_update", "symmetric_difference_update", "popleft",
     "appendleft",
 }
+# classes whose instances are updated in place by design (one line of reason each)
+MUTABLE_BY_DESIGN = {
+    "utils.dynamic_programming:Entry": "a DP cell: update() is its purpose (C16)",
+    "utils.dynamic_programming:Table": "DP table: cells are created on first write",
+    "utils.dynamic_programming:EntryProxy": "lazy cell creation",
+    "utils.dynamic_programming:TableProxy": "lazy cell creation",
+    "utils.disjoint_set:DisjointSet": "union-find: find() compresses paths, unite() links (C20)",
+}
 PURE_SCOPE = ("compute.", "model.", "utils.", "render.")
 
 
@@ -123,21 +131,42 @@ def solver_stateless(prog: Program) -> RuleResult:
                 if root and root not in locals_ and _is_module_state(prog, mod, root, mod_names):
                     bad.append((node, f"`{short(node, 70)}` mutates module-level object `{root}`"))
             del target, what
-        # (d) results cached on `self` / on a parameter object of a model class
+        # (e) shallow copy of a module-level container whose values are themselves mutable, then written through
+        for node in walk_no_nested(fn):
+            if not (isinstance(node, (ast.Assign, ast.AnnAssign)) and node.value is not None):
+                continue
+            tgt = node.targets[0] if isinstance(node, ast.Assign) and len(node.targets) == 1 else getattr(node, "target", None)
+            if not isinstance(tgt, ast.Name):
+                continue
+            src = _shallow_copy_of(node.value)
+            if src is None or src in locals_ or not _is_module_state(prog, mod, src, mod_names):
+                continue
+            literal = mod_names.get(src)
+            if literal is None or not _has_nested_mutable(literal):
+                continue
+            if _written_through(prog, mod, fn, tgt.id, depth=2):
+                bad.append((node, f"`{short(node, 70)}` is a shallow copy of module-level `{src}`, whose inner containers stay shared, and is then written through: every call appends to the same lists"))
+        # (d) results cached on `self` outside the constructor (classes that are mutable by design are listed)
         owner_cls = _owner_class(prog, mod, qual)
-        if owner_cls is not None and fn.name not in ("__init__", "__post_init__", "__new__", "__setstate__"):  # type: ignore[attr-defined]
+        if (
+            owner_cls is not None
+            and fn.name not in ("__init__", "__post_init__", "__new__", "__setstate__")  # type: ignore[attr-defined]
+            and f"{key}:{owner_cls.name}" not in MUTABLE_BY_DESIGN
+        ):
             for node in walk_no_nested(fn):
                 if isinstance(node, (ast.Assign, ast.AugAssign, ast.AnnAssign)):
                     tgts = node.targets if isinstance(node, ast.Assign) else [node.target]
                     for tgt in tgts:
-                        if isinstance(tgt, ast.Attribute) and isinstance(tgt.value, ast.Name) and tgt.value.id == "self":
-                            if key.startswith("model."):
-                                bad.append((node, f"`{short(node, 70)}` stores state on a model object outside its constructor"))
+                        base = tgt
+                        while isinstance(base, ast.Subscript):
+                            base = base.value
+                        if isinstance(base, ast.Attribute) and isinstance(base.value, ast.Name) and base.value.id == "self":
+                            bad.append((node, f"`{short(node, 70)}` stores state on the object outside its constructor (a cached result outlives later changes of what it was computed from)"))
                 elif isinstance(node, ast.Call):
                     name = dotted(node.func) or ""
                     if name.endswith("__setattr__") or name == "setattr":
-                        if node.args and isinstance(node.args[0], ast.Name) and node.args[0].id == "self" and key.startswith("model."):
-                            bad.append((node, f"`{short(node, 70)}` stores state on a (frozen) model object outside its constructor"))
+                        if node.args and isinstance(node.args[0], ast.Name) and node.args[0].id == "self":
+                            bad.append((node, f"`{short(node, 70)}` stores state on a (frozen) object outside its constructor"))
         if bad:
             for node, why in bad:
                 res.fail(construct, why, mod, node)
@@ -146,6 +175,65 @@ def solver_stateless(prog: Program) -> RuleResult:
     if n_funcs < 100:
         raise AnalysisError(f"SOLVER-STATELESS: only {n_funcs} functions found under compute/, model/, utils/")
     return res
+
+
+def _shallow_copy_of(value: ast.AST) -> Optional[str]:
+    if isinstance(value, ast.Call):
+        name = dotted(value.func) or ""
+        if name in ("dict", "list", "set", "copy", "copy.copy") and len(value.args) == 1 and isinstance(value.args[0], ast.Name):
+            return value.args[0].id
+        if isinstance(value.func, ast.Attribute) and value.func.attr == "copy" and not value.args and isinstance(value.func.value, ast.Name):
+            return value.func.value.id
+    if isinstance(value, ast.Dict) and len(value.keys) == 1 and value.keys[0] is None and isinstance(value.values[0], ast.Name):
+        return value.values[0].id
+    if isinstance(value, ast.Name):
+        return value.id  # plain alias
+    return None
+
+
+def _has_nested_mutable(literal: ast.AST) -> bool:
+    if isinstance(literal, ast.Dict):
+        return any(_is_mutable_literal(v) for v in literal.values)
+    if isinstance(literal, (ast.List, ast.Set, ast.Tuple)):
+        return any(_is_mutable_literal(v) for v in literal.elts)
+    return False
+
+
+def _written_through(prog: Program, mod: Module, fn: ast.AST, name: str, depth: int) -> bool:
+    """Is an inner container of `name` mutated in `fn`, or in a package function that receives `name`?"""
+    for node in ast.walk(fn):
+        if isinstance(node, ast.Call) and isinstance(node.func, ast.Attribute) and node.func.attr in MUTATORS:
+            recv = node.func.value
+            if isinstance(recv, ast.Subscript) and _root_name(recv) == name:
+                return True
+        if isinstance(node, (ast.Assign, ast.AugAssign)):
+            tgts = node.targets if isinstance(node, ast.Assign) else [node.target]
+            for tgt in tgts:
+                if isinstance(tgt, ast.Subscript) and isinstance(tgt.value, ast.Subscript) and _root_name(tgt) == name:
+                    return True
+                if isinstance(node, ast.AugAssign) and isinstance(tgt, ast.Subscript) and _root_name(tgt) == name:
+                    return True  # x[k] += [...] extends the shared inner list
+    if depth <= 0:
+        return False
+    for call in ast.walk(fn):
+        if not isinstance(call, ast.Call):
+            continue
+        passed = [(i, a) for i, a in enumerate(call.args) if isinstance(a, ast.Name) and a.id == name]
+        passed_kw = [k.arg for k in call.keywords if isinstance(k.value, ast.Name) and k.value.id == name and k.arg]
+        if not passed and not passed_kw:
+            continue
+        target = resolve_callee(prog, mod, call.func)
+        if target is None and isinstance(call.func, ast.Name):
+            local = [n for n in ast.walk(fn) if isinstance(n, FuncNode) and n.name == call.func.id]
+            target = (mod, local[0]) if local else None
+        if target is None or not isinstance(target[1], FuncNode):
+            continue
+        params = func_params(target[1])
+        names = [params[i] for i, _a in passed if i < len(params)] + [k for k in passed_kw if k in params]
+        for pname in names:
+            if _written_through(prog, target[0], target[1], pname, depth - 1):
+                return True
+    return False
 
 
 def _owner_class(prog: Program, mod: Module, qual: str) -> Optional[ast.ClassDef]:
